@@ -45,7 +45,12 @@ Defs(X, Y) == <<
 
 Leaves == { P("i32"), P("u32"), P("string") } \cup { Ref(i) : i \in 2..8 }
 Wrapped == { W(w, t) : w \in {"opt", "vec", "map"}, t \in Leaves \cup {Ref(1)} } \ { W("opt", Ref(5)) }    \* Option<union enum>: not valid Avro (D12)
-FieldTypes == Leaves \cup Wrapped
+\* thorough tier: two wrappers (Vec<Option<_>>, Option<Vec<R>>, map of Vec ...), again without a union directly inside a union
+CONSTANT Deep
+Wrappers == {"opt", "vec", "map"}
+Wrapped2 == { W(w1, W(w2, t)) : w1 \in Wrappers, w2 \in Wrappers, t \in Leaves \cup {Ref(1)} }
+            \ ({ W("opt", W("opt", t)) : t \in Leaves \cup {Ref(1)} } \cup { W(w1, W("opt", Ref(5))) : w1 \in Wrappers })
+FieldTypes == IF Deep THEN Leaves \cup Wrapped \cup Wrapped2 ELSE Leaves \cup Wrapped
 Roots == { Ref(1), W("vec", Ref(1)), W("opt", Ref(1)) }
 
 VARIABLE c
